@@ -115,7 +115,15 @@ func GenAnyFees(r *rand.Rand, w *world.World, a *big.Int) []spec.Fee {
 	var fees []spec.Fee
 	for i := 0; i < n; i++ {
 		f := spec.Fee{Recipient: rc[r.Intn(len(rc))]}
-		switch r.Intn(12) {
+		switch r.Intn(16) {
+		case 4:
+			f.Recipient = world.DustAddr().String()
+		case 5:
+			f.Recipient = world.OrbiterAddr().String()
+		case 6:
+			f.Recipient = ModAddr([]string{"cctp", "warp", "hyperlane", "transfer", "bonded_tokens_pool", "fee_collector", "fiat-tokenfactory", "never-used-module"}[r.Intn(8)])
+		case 7:
+			f.Recipient = EscrowAddr(w.Channels[0].A)
 		case 0:
 			f.Recipient = strings.ToUpper(f.Recipient)
 		case 1:
